@@ -265,3 +265,19 @@ package js_parser
 // with make([]SourceContent, sourceOffset-len(sourcesContent)), whose length must not be negative). An entry is appended
 // only on a path where the entry's index has been found different from (below) the number of sources.
 //@ guarded sources-content-never-outgrows-sources C16 C07: func=ParseSourceMap ; in=js_parser ; site=builtin append ; when-arg=0:*sourcesContent* ; only-under=true:phi:rangeindex+1<call len(*sourcesContentArray*) ; scenario=index_map_surplus_sources_content ; require-any=false:phi:rangeindex+1==* || false:phi:rangeindex+1>=*
+
+// C03: "for (; a;) if (x) y(); else break;" may become "for (; a && x;) y();" only when the break is UNLABELLED
+// (ECMA-262 14.9: a labelled break completes with that label as target and leaves the enclosing labelled
+// statement, not just the innermost loop). Both foldings drop the if-statement through dropFirstStatement.
+//@ guarded loop-test-absorbs-only-unlabelled-breaks C03: func=mangleFor ; in=js_parser ; site=call dropFirstStatement ; scenario=labelled_break_folded_into_loop_test ; require=true:*.Data.Label==nil
+
+// C06: a TypeScript type predicate `x is T` / `this is T` needs `is` on the SAME line as its subject (TypeScript's
+// parser tests !hasPrecedingLineBreak): a type that ends a line with `this` followed by a member named `is` on the
+// next line is two things, and erasing the member with the type changes the emitted class.
+//@ guarded type-predicate-is-stays-on-one-line C06: func=(*parser).skipTypeScriptTypeWithFlags ; in=js_parser ; site=call skipTypeScriptType ; only-under=true:call IsContextualKeyword(*is*) ; scenario=this_newline_is_member ; require=false:p.lexer.HasNewlineBefore
+
+// C06: inside an enum body a bare identifier may resolve to a member of THAT enum (and its merged enum siblings) but
+// not to an export of a merged namespace, and inside a namespace body to the namespace's exports but not to enum
+// members (TypeScript binds enum members and namespace exports in separate containers). So a bare name becomes a
+// property access on the namespace/enum object only when "the scope is an enum" agrees with "the member is an enum value".
+//@ guarded namespace-member-capture-matches-scope-kind C06: func=(*parser).findSymbol ; in=js_parser ; site=store Symbol.NamespaceAlias ; scenario=enum_initializer_captured_by_namespace_export ; require=true:*.IsEnumScope==*.IsEnumValue
